@@ -376,7 +376,12 @@ pub fn build(e: &mut Ent, o: &Opts) -> ElfSpec {
     let (mut phoff, mut shoff) = (0u32, 0u32);
     let mut junk = e.u32() | 1;
     for b in blobs {
-        let gap = if e.chance(1, 2) { 0 } else { e.below(24) };
+        // gaps of junk between the blobs; rarely a large one, so that file offsets exceed 16 bits
+        let gap = match e.below(40) {
+            0 => 0x1_0000 + e.below(0x800),
+            1..=19 => 0,
+            _ => e.below(24),
+        };
         for _ in 0..gap {
             junk = junk.wrapping_mul(1103515245).wrapping_add(12345);
             file.push((junk >> 16) as u8);
